@@ -285,6 +285,65 @@ Proof.
   destruct H as [ts [p [Es [Hn _]]]]. exists ts, p. split; assumption.
 Qed.
 
+(* ================================================================ model equality *)
+From TxV Require Import Model.Build.
+
+Definition root_top (g : grammar) : bool :=
+  match get_node g (g_top g) with
+  | Some nd => n_root nd && negb (is_match_kind (n_kind nd))
+  | None => false
+  end.
+
+Lemma post_shape nid nd r : n_root nd = true -> truthy (post nid nd r) = true -> exists t, post nid nd r = RTree t.
+Proof.
+  intros Hr. unfold post.
+  set (r1 := if (n_suppress nd || head_is_none r)%bool then RNone else r).
+  rewrite Hr. cbn [andb].
+  destruct (truthy r1 && negb (is_ptnode r1))%bool eqn:C.
+  - intros _. eexists. reflexivity.
+  - intro Ht. rewrite Ht in C. cbn [andb] in C. apply negb_false_iff in C.
+    destruct r1; try discriminate. eexists. reflexivity.
+Qed.
+
+Lemma run_shape g c orc fuel input r :
+  root_top g = true -> run g c orc false fuel input = Parsed r -> truthy r = true -> exists t, r = RTree t.
+Proof.
+  unfold root_top, run. intros Hrt H.
+  destruct fuel as [|f]; [discriminate|]. cbn [parse] in H.
+  destruct (get_node g (g_top g)) as [nd|]; [|discriminate].
+  apply andb_true_iff in Hrt as [Hroot Hm]. apply negb_true_iff in Hm. rewrite Hm in H. cbv iota in H.
+  destruct (body (parse g input orc false f) f nd (init_st c)) as [r0 s1|s1|w]; try discriminate.
+  inversion H; subst. apply post_shape. exact Hroot.
+Qed.
+
+Lemma build_flat_flatten g mm input grp auto ug r :
+  (truthy r = true -> exists t, r = RTree t) ->
+  build g mm input grp auto ug r = build_flat g mm input grp auto ug (flatten r).
+Proof.
+  intro Hs. destruct r as [|t|l].
+  - reflexivity.
+  - cbn [flatten]. destruct t as [n p len s|n kids]; [reflexivity|]. destruct kids; reflexivity.
+  - destruct l as [|a l]; [reflexivity|]. destruct (Hs eq_refl) as [t E]. discriminate.
+Qed.
+
+(* For grammars in the class the model textX builds from the interpreter's tree is the model built from
+   the reference tree: objects, classes, attribute values, defaults, positions - Build is applied to
+   equal trees.  (With separators: the tree of the trailing-separator variant.) *)
+Theorem model_equality g mm pf c orc fuel input grp auto ug r :
+  wfg g pf = true -> orc_pos orc -> root_top g = true ->
+  run g c orc false fuel input = Parsed r ->
+  exists tsq p, spec_run_q g c orc fuel input = SOk tsq p /\
+    build g mm input grp auto ug r = build_flat g mm input grp auto ug (erase_all tsq) /\
+    (nosep g = true -> exists ts, spec_run g c orc fuel input = SOk ts p /\
+                                  build g mm input grp auto ug r = build_flat g mm input grp auto ug (erase_all ts)).
+Proof.
+  intros Hwf Horc Hrt Hrun. pose proof (refinement g pf c orc fuel input Hwf Horc) as H. rewrite Hrun in H.
+  destruct H as [ts [p [Es [Hn [tsq [Eq Ee]]]]]].
+  pose proof (build_flat_flatten g mm input grp auto ug r (run_shape g c orc fuel input r Hrt Hrun)) as HB.
+  exists tsq, p. split; [exact Eq|]. split; [rewrite Ee; exact HB|].
+  intro Hns. exists ts. split; [exact Es|]. rewrite (Hn Hns). exact HB.
+Qed.
+
 (* a grammar with suppression, a separator, predicates and a rule modifier inside the class
    (Model: 'm'- items+=Item[','] !'z' &';' ';';  Item[noskipws]: name=ID ('=' v=INT)?;  on "ma=1,b ;") *)
 Definition g_rich : grammar := (mkGrammar [mkNode KSeq [1;18] None false [77;111;100;101;108]%N true false None None;
@@ -310,8 +369,9 @@ Definition in_rich : list N := [109;97;61;49;44;98;32;59]%N.
 Definition t_rich := [((0,0),2);((0,1),1);((0,5),1);((1,3),1)].
 
 Lemma rich_in_class :
-  wfg g_rich 24 = true /\ nosep g_rich = false /\
+  wfg g_rich 24 = true /\ nosep g_rich = false /\ root_top g_rich = true /\
   accepts (run g_rich c_default (orc_of t_rich) false 60 in_rich) = true /\
   saccepts (spec_run g_rich c_default (orc_of t_rich) 60 in_rich) = true /\
   accepts (run g_rich c_default (orc_of t_rich) false 60 [109;32;97]%N) = false.
 Proof. vm_compute. repeat split. Qed.
+
